@@ -156,7 +156,7 @@ fn tcp_cases(r: &mut Rng, tier: &Tier, out: &mut Vec<String>) {
                 }
             }
             // structured random
-            for _ in 0..tier.scale(6, 60) {
+            for _ in 0..tier.scale(12, 120) {
                 let m = if r.chance(2, 3) { *r.pick(&grid) } else { r.range(1, 65535) as u16 };
                 let wa = match r.below(4) { 0 => r.next() as u16, 1 => ((r.range(1, 44) as u32 * m as u32).min(65535)) as u16, 2 => (r.range(1, 255) as u16).wrapping_mul(256), _ => *r.pick(&[0u16, 512, 1500, 2920, 3000, 4380, 5840, 65535]) };
                 let c = Choice { v6: *r.pick(&versions(s)), hops: r.below(31) as u8, mss: m, ws: r.below(15) as u8, ecn_ip: r.chance(1, 2), payload: r.chance(1, 2), id: r.next() as u16, sport: r.range(1, 65535) as u16, last: r.range(1, 254) as u8, win_any: wa };
@@ -279,7 +279,7 @@ fn http_cases(r: &mut Rng, tier: &Tier, out: &mut Vec<String>) {
                 }
             }
             // structured random: per-header modes
-            for _ in 0..tier.scale(12, 150) {
+            for _ in 0..tier.scale(40, 500) {
                 let sub = r.below(nsub);
                 let keep = |i: usize| { let k = opt_idx.iter().position(|x| *x == i).unwrap(); sub >> k & 1 == 1 };
                 let v11 = r.chance(1, 2);
